@@ -4,6 +4,7 @@ import (
 	"context"
 	"encoding/json"
 	"fmt"
+	"os"
 	"strings"
 	"sync"
 	"testing"
@@ -348,7 +349,7 @@ func runC07(t *testing.T, planAny any, res *simnet.Result) {
 		// ---- three things in one instant: the victim's route flood (100 ms after a new peer was admitted), the first
 		// update about a node nobody has heard of relayed by one well-behaved peer, and a reject from another.  The
 		// goroutines are held back at random lock sites (in real time) so that their lock acquisitions interleave.
-		if p.Coincide > 0 && len(res.Violations) == 0 {
+		if p.Coincide > 0 && len(res.Violations) == 0 && os.Getenv("VERIF_NO_REALTIME") == "" {
 			defer installYields(res.Seed, 0, "none")()
 			stopNoise := installLockNoise(res.Seed, 0.5)
 			mkPeer := func(name string, latNs int) (*simnet.Session, time.Duration) {
